@@ -227,18 +227,27 @@ impl C16 {
         static DIRN: AtomicU64 = AtomicU64::new(0);
         let dir = format!("/verif/target/scratch/c16-{}-{}", std::process::id(), DIRN.fetch_add(1, Ordering::SeqCst));
         let _ = std::fs::create_dir_all(format!("{}/d", dir));
+        let _ = std::fs::create_dir_all(format!("{}/e", dir));
         let mut cfg = Config::default();
         cfg.cache.size_limit = scn.limit;
         cfg.cache.time_limit = scn.time_limit;
         cfg.logging.console = false;
-        // (path kind, file on disk, uri, host)
-        let files: Vec<(bool, String, String, usize)> = vec![
-            (false, format!("{}/a.txt", dir), "/a".into(), 0),
-            (false, format!("{}/b.html", dir), "/a".into(), 1), // same uri, other host
-            (true, format!("{}/d/c.json", dir), "/d/c.json".into(), 0),
-            (true, format!("{}/d/e.png", dir), "/d/e.png".into(), 0),
+        // (route: 0 = file route, 1 = directory route /d/*, 2 = directory route /e/*; file on disk;
+        // uri; host).  The two directory routes hold files with the same relative names, each has an
+        // index file, and a file route's uri equals a relative name inside the directories: a cache
+        // key that is not the full (host, request path) makes two of them collide.
+        let files: Vec<(u8, String, String, usize)> = vec![
+            (0, format!("{}/a.txt", dir), "/a".into(), 0),
+            (0, format!("{}/b.html", dir), "/a".into(), 1), // same uri, other host
+            (1, format!("{}/d/c.json", dir), "/d/c.json".into(), 0),
+            (1, format!("{}/d/e.png", dir), "/d/e.png".into(), 0),
+            (2, format!("{}/e/c.json", dir), "/e/c.json".into(), 0),
+            (2, format!("{}/e/index.html", dir), "/e/".into(), 0),
+            (1, format!("{}/d/index.html", dir), "/d/".into(), 0),
+            (0, format!("{}/rootc.json", dir), "/c.json".into(), 0),
+            (2, format!("{}/e/e.png", dir), "/e/e.png".into(), 1),
         ];
-        let exts = ["txt", "html", "json", "png"];
+        let exts = ["txt", "html", "json", "png", "json", "html", "html", "json", "png"];
         for (i, f) in files.iter().enumerate() {
             let _ = std::fs::write(&f.1, content(99, i, 24));
         }
@@ -271,7 +280,11 @@ impl C16 {
                                 let req = Request::from_stream(&mut raw.as_bytes(), "10.0.0.1:1000".parse().unwrap()).unwrap();
                                 let t0 = now_secs();
                                 humsim::thread::yield_now();
-                                let resp = if f.0 { directory_handler(req, state.clone(), &format!("{}/d", dir), "/d/*", f.3) } else { file_handler(req, state.clone(), &f.1, f.3) };
+                                let resp = match f.0 {
+                                    1 => directory_handler(req, state.clone(), &format!("{}/d", dir), "/d/*", f.3),
+                                    2 => directory_handler(req, state.clone(), &format!("{}/e", dir), "/e/*", f.3),
+                                    _ => file_handler(req, state.clone(), &f.1, f.3),
+                                };
                                 let ct = resp.headers.get("Content-Type").unwrap_or("").to_string();
                                 let t1 = now_secs();
                                 r.lock().unwrap().push((t0, t1, fi, u16::from(resp.status_code), resp.body.clone(), ct));
@@ -348,7 +361,7 @@ impl Prop for C16 {
         }
     }
     fn rule(&self) -> &'static str {
-        "One case = a history of set/get/sweep/clock-advance operations (length <= 200, thorough <= 2000) over 32 keys x 2 hosts with sizes 0..limit, limits 0..64 KiB, time limits {0,1,60}, issued by 1..8 simulated threads through the real RwLock<Cache> (write lock for set, read lock for get, as the handlers do) under a seeded schedule, with wall-clock jumps landing just before / on / after second boundaries and age limits; every operation is stamped with a sequence number taken while the lock is held, which gives the linearisation order. One case in eight instead drives the real file_handler / directory_handler with a cache-enabled AppState over real files rewritten between requests. Distinct = distinct hit/miss/set/sweep pattern; non-trivial = at least three operations."
+        "One case = a history of set/get/sweep/clock-advance operations (length <= 200, thorough <= 2000) over 32 keys x 2 hosts with sizes 0..limit, limits 0..64 KiB, time limits {0,1,60}, issued by 1..8 simulated threads through the real RwLock<Cache> (write lock for set, read lock for get, as the handlers do) under a seeded schedule, with wall-clock jumps landing just before / on / after second boundaries and age limits; every operation is stamped with a sequence number taken while the lock is held, which gives the linearisation order. One case in eight instead drives the real file_handler / directory_handler with a cache-enabled AppState over real files rewritten between requests: two file routes with the same uri on two hosts, two directory routes holding files with the same relative names and an index file each, and a file route whose uri equals a relative name inside the directories. Distinct = distinct hit/miss/set/sweep pattern; non-trivial = at least three operations."
     }
     fn assumptions(&self) -> Vec<String> {
         vec![
